@@ -12,11 +12,13 @@ use crate::program::*;
 pub struct PlanBuilder {
     pub jobs: Vec<Job>,
     pub split: HashSet<usize>,
+    /// generator families whose program limit was reached (the family is then not covered in full)
+    pub gen_capped: Vec<String>,
 }
 
 impl PlanBuilder {
     pub fn new() -> Self {
-        PlanBuilder { jobs: Vec::new(), split: HashSet::new() }
+        PlanBuilder { jobs: Vec::new(), split: HashSet::new(), gen_capped: Vec::new() }
     }
     pub fn add(&mut self, engine: &str, program: Program, cancelable: bool, bound: Option<u32>, rules: &[Rule], split: bool) {
         let id = self.jobs.len();
@@ -44,10 +46,13 @@ impl PlanBuilder {
     /// with a preemption bound and 2 collector cycles that yield inside the drain.
     pub fn add_concurrent(&mut self, cfg: &GenCfg, configs: &[bool], bound: u32, rules: &[Rule], max_moved: usize) -> u64 {
         let mut progs: Vec<Program> = Vec::new();
-        generate(cfg, 1_000_000, &mut |p| {
+        let generated = generate(cfg, 1_000_000, &mut |p| {
             progs.extend(concurrentize(&p, max_moved).into_iter().map(|q| q.collector(2, false, 0)));
             true
         });
+        if generated >= 1_000_000 {
+            self.gen_capped.push(format!("{} (first 1000000 programs in generation order)", cfg.name));
+        }
         let n = progs.len() as u64;
         for chunk in progs.chunks(4) {
             for &c in configs {
@@ -104,6 +109,9 @@ impl PlanBuilder {
         });
         if !batch.is_empty() {
             all.push(batch);
+        }
+        if n >= limit {
+            self.gen_capped.push(format!("{} (first {} programs in generation order)", cfg.name, limit));
         }
         for programs in all {
             for &c in configs {
@@ -616,7 +624,7 @@ pub fn plan(property: &str, tier: &str) -> Option<CheckSpec> {
             g.elapsed = true;
             g.collect_open = true;
             g.busy_wait_us = 150;
-            g.max_len = if quick { 5 } else { 7 };
+            g.max_len = if quick { 5 } else { 6 };
             let n1 = b.add_gen(&g, if quick { 1 } else { 2 }, &[false], &rules, 3_000_000);
             // spans and local spans that stay open for more than a second
             b.add_batch(long_span_programs(), false, false, &rules);
@@ -828,6 +836,10 @@ pub fn plan(property: &str, tier: &str) -> Option<CheckSpec> {
         let nu = b.add_gen(&u, cycles, u_configs, &rules, 3_000_000);
         rule_text = format!("{rule_text}; plus the universal family: {nu} programs over the whole operation alphabet (<= {} operations) x {cycles} cycle placement(s)", u.max_len);
     }
+    let exhaustive_claim = b.gen_capped.is_empty();
+    if !exhaustive_claim {
+        assumptions.push(format!("NOT exhaustive at the stated bound: the program limit of the generator was reached for {}", b.gen_capped.join(", ")));
+    }
     Some(CheckSpec {
         property: property.into(),
         tier: tier.into(),
@@ -837,7 +849,7 @@ pub fn plan(property: &str, tier: &str) -> Option<CheckSpec> {
         rule_text,
         assumptions,
         bound_text,
-        exhaustive_claim: true,
+        exhaustive_claim,
         external,
         wall_cap: Duration::from_secs(if quick { 120 } else { 3600 }),
     })
